@@ -84,35 +84,10 @@ func (v *Vue) evalSlot(ctx VueContext, node *html.Node, slotScope *SlotScope) ([
 
 			// If the slot content is a template with v-slot, evaluate it with the props
 			if slotContent.TemplateNode != nil {
-				// Extract scoped variable name from the template's v-slot attribute
-				scopedVarName := ""
-				for _, attr := range slotContent.TemplateNode.Attr {
-					if attr.Key == "v-slot" {
-						scopedVarName = attr.Val
-					} else if strings.HasPrefix(attr.Key, "v-slot:") || (len(attr.Key) > 0 && attr.Key[0] == '#') {
-						// For named slots, extract the scoped var from the attribute value
-						scopedVarName = attr.Val
-					}
-				}
-
 				// Push the scoped props onto the stack
 				ctx.stack.Push(nil)
 				defer ctx.stack.Pop()
-
-				// If there's a scoped variable name, use it; otherwise use the props directly
-				if names, ok := destructuredNames(scopedVarName); ok {
-					// v-slot="{ item, index }": bind each named prop directly
-					for _, name := range names {
-						ctx.stack.Set(name, slotProps[name])
-					}
-				} else if scopedVarName != "" {
-					ctx.stack.Set(scopedVarName, slotProps)
-				} else {
-					// Set the slot props directly in the context
-					for k, v := range slotProps {
-						ctx.stack.Set(k, v)
-					}
-				}
+				bindSlotProps(ctx, slotContent.TemplateNode, slotProps)
 
 				// Evaluate the template content (children of the template)
 				children, err := v.evaluateChildren(ctx, slotContent.TemplateNode, 0)
@@ -148,8 +123,10 @@ func (v *Vue) evalSlot(ctx VueContext, node *html.Node, slotScope *SlotScope) ([
 				// Evaluate the inherited slot content (parsed DOM nodes of the page); this
 				// also gives every use of the slot its own copy of the nodes.
 				// A <slot> inside that content must not resolve to the content again.
+				// The props the <slot> binds are available to it like to any other slot content.
 				ctx.stack.Push(map[string]any{"__slotScope__": nil})
 				defer ctx.stack.Pop()
+				bindSlotProps(ctx, slotContent.TemplateNode, slotProps)
 				return v.evaluate(ctx, slotContent.Nodes, 0)
 			}
 		}
@@ -162,6 +139,33 @@ func (v *Vue) evalSlot(ctx VueContext, node *html.Node, slotScope *SlotScope) ([
 	}
 
 	return []*html.Node{}, nil
+}
+
+// bindSlotProps makes the props a <slot> binds available to the slot content in the current
+// scope: under the variable the slot template declares (v-slot="p", #name="p"), destructured
+// (v-slot="{ a, b }"), or directly by name when the template declares nothing or the content
+// has no slot template at all.
+func bindSlotProps(ctx VueContext, templateNode *html.Node, slotProps map[string]any) {
+	scopedVarName := ""
+	if templateNode != nil {
+		for _, attr := range templateNode.Attr {
+			if attr.Key == "v-slot" || strings.HasPrefix(attr.Key, "v-slot:") || (len(attr.Key) > 0 && attr.Key[0] == '#') {
+				scopedVarName = attr.Val
+			}
+		}
+	}
+	if names, ok := destructuredNames(scopedVarName); ok {
+		// v-slot="{ item, index }": bind each named prop directly
+		for _, name := range names {
+			ctx.stack.Set(name, slotProps[name])
+		}
+	} else if scopedVarName != "" {
+		ctx.stack.Set(scopedVarName, slotProps)
+	} else {
+		for k, v := range slotProps {
+			ctx.stack.Set(k, v)
+		}
+	}
 }
 
 // destructuredNames parses a destructuring slot-props pattern such as "{ item, index }" into
